@@ -256,20 +256,51 @@ def fact_small(ctx, notes):
     return ok
 
 
+def fact_reopen(ctx, notes):
+    """InnerWalWriter::start_next_log_file: entries_written := number of entries already in the log
+    that is (re)opened ("count") or a constant ("zero")"""
+    b = Builder(ctx, "inner_wal_writer-{impl#0}-start_next_log_file.", "InnerWalWriter::start_next_log_file", {})
+    E = b.E
+    if E is None:
+        notes.append(b.err)
+        return None
+    st = oblig.events(E, r"^store\(\*self\.entries_written\)$")
+    if len({e.bb for e in st}) != 1:
+        notes.append("start_next_log_file: entries_written is not assigned exactly once")
+        return None
+    v = st[0].args[0]
+    d = sym.describe(v)
+    if re.match(r"InnerWalWriter::count_entries#\d+$", d):
+        ce = [e for e in oblig.events(E, r"InnerWalWriter::count_entries$")]
+        if ce and ce[0].args and re.search(r"\.dir$", sym.describe(ce[0].args[0])):
+            return "count"
+        notes.append("count_entries is not called on the writer's own directory")
+        return None
+    t = E.to_term(v, "u64")
+    if t is not None and z3.is_bv_value(z3.simplify(t)) and z3.simplify(t).as_long() == 0:
+        return "zero"
+    notes.append(f"start_next_log_file: entries_written := {d[:60]}")
+    return None
+
+
 # ------------------------------------------------------------------------------------ model
 class Model:
     """symbolic execution of the composed write path; every quantity is a z3 integer term"""
 
-    def __init__(self, facts, steps, capmax, nondet_rotation, midflush_kill=False):
+    def __init__(self, facts, steps, capmax, nondet_rotation, midflush_kill=False, lag=False):
         self.f = facts
         self.midflush_kill = midflush_kill
+        self.lag = lag                      # flushes complete at an arbitrary later step (in order), not at once
+        self.pending = []                   # per swapped-out memtable: dict(active, seg, boundary)
+        self.completed = z3.IntVal(0)
+        self.adv = []
         self.N = steps
         self.cap = z3.Int("cap")
         self.pre = [self.cap >= 1, self.cap <= capmax]
-        self.ops = [z3.Int(f"op{t}") for t in range(steps)]          # 0 STORE, 1 FLUSH, 2 graceful restart
+        self.ops = [z3.Int(f"op{t}") for t in range(steps)]          # 0 STORE, 1 FLUSH, 2 graceful restart, 3 kill + restart
         self.nd = [z3.Bool(f"wal_rotates{t}") for t in range(steps)] if nondet_rotation else None
         for o in self.ops:
-            self.pre.append(z3.And(o >= 0, o <= 2))
+            self.pre.append(z3.And(o >= 0, o <= 3))
         I = z3.IntVal
         self.L, self.w, self.m, self.S, self.Smax = I(0), I(0), I(0), I(0), I(0)
         self.cur_alive = z3.BoolVal(True)
@@ -301,6 +332,14 @@ class Model:
             self.rotate(rc)
             boundary = self.L
         nonempty = z3.And(c, self.m > 0)
+        if self.lag and prune:
+            k = len(self.pending)
+            for e in self.ev:
+                e["batch"] = self.ite(z3.And(nonempty, e["inmem"]), z3.IntVal(k), e.get("batch", z3.IntVal(-1)))
+                e["inmem"] = z3.And(e["inmem"], z3.Not(c))
+            self.m = self.ite(c, z3.IntVal(0), self.m)
+            self.pending.append({"active": nonempty, "seg": seg, "boundary": boundary})
+            return
         for e in self.ev:
             e["flushed"] = z3.Or(e["flushed"], z3.And(nonempty, e["inmem"]))
             e["inmem"] = z3.And(e["inmem"], z3.Not(c))
@@ -316,6 +355,35 @@ class Model:
             self.cleanup(nonempty, boundary + cut["c"])
         # mode wal without a recorded boundary, or mode none: nothing is pruned
 
+    def complete(self, k, cond):
+        """the flush of pending memtable k finishes: segment durable and published, then the WAL is pruned"""
+        p = self.pending[k]
+        c = z3.And(cond, p["active"])
+        for e in self.ev:
+            e["flushed"] = z3.Or(e["flushed"], z3.And(c, e.get("batch", z3.IntVal(-1)) == k))
+        self.Smax = self.ite(c, p["seg"] + 1, self.Smax)
+        cut = self.f["cut"]
+        if cut["mode"] == "seg":
+            self.cleanup(c, p["seg"] + cut["c"])
+        elif cut["mode"] == "wal" and p["boundary"] is not None:
+            self.cleanup(c, p["boundary"] + cut["c"])
+
+    def progress(self, t, everything=None):
+        """the flush worker gets through some (or, at a graceful shutdown, all) of the queued flushes, in order"""
+        n = len(self.pending)
+        if not self.lag or n == 0:
+            return
+        if everything is None:
+            a = z3.Int(f"flush_progress{t}_{len(self.adv)}")
+            self.adv.append(a)
+            self.pre.append(z3.And(a >= 0, self.completed + a <= n))
+            upto = self.completed + a
+        else:
+            upto = self.ite(everything, z3.IntVal(n), self.completed)
+        for k in range(n):
+            self.complete(k, z3.And(self.completed <= k, k < upto))
+        self.completed = upto
+
     def restart(self, c, t):
         """state a new process finds; duplicates / losses are judged by the caller"""
         any_file = self.cur_alive            # deletion is a prefix of the ids, the current log has the largest id
@@ -323,7 +391,7 @@ class Model:
         lines = self.ite(any_file, self.w, z3.IntVal(0))
         # InnerWalWriter::find_next_wal_id / count_entries / start_next_log_file
         nxt = self.ite(last == 0, z3.IntVal(0), self.ite(lines < self.cap, last, last + 1))
-        neww = self.ite(nxt == last, lines, z3.IntVal(0))
+        neww = self.ite(nxt == last, lines, z3.IntVal(0)) if self.f.get("reopen", "count") == "count" else z3.IntVal(0)
         self.L = self.ite(c, nxt, self.L)
         self.w = self.ite(c, neww, self.w)
         self.cur_alive = z3.Or(c, self.cur_alive)
@@ -347,6 +415,7 @@ class Model:
         for t in range(self.N):
             op = self.ops[t]
             st, fl, gr = op == 0, op == 1, op == 2
+            self.progress(t)
             # ---- STORE: WAL append (own thread), memtable insert, flush when full
             # an append to a log that was already unlinked is not on disk for the next process
             e = {"exists": st, "log": self.L, "alive": z3.And(st, self.cur_alive), "inmem": st, "flushed": z3.BoolVal(False)}
@@ -363,19 +432,28 @@ class Model:
             self.flush(fl, f["manual"], prune=not last)
             # ---- graceful restart: flush_all (the FLUSH path), WAL shutdown, new process
             self.flush(gr, f["manual"])
+            self.progress(t, everything=gr)
             self.judge(gr, t, "graceful restart")
-            self.restart(gr, t)
+            # ---- kill + restart in the middle of the history (queued flushes that did not finish are gone)
+            kr = op == 3
+            self.judge(kr, t, "kill")
+            if self.lag:
+                for k_, p_ in enumerate(self.pending):
+                    p_["active"] = z3.And(p_["active"], z3.Or(z3.Not(kr), self.completed > k_))
+                self.completed = self.ite(kr, z3.IntVal(len(self.pending)), self.completed)
+            self.restart(z3.Or(gr, kr), t)
+        self.progress(self.N)
         # the process is killed after the last step (or inside its flush, after publication)
         if self.midflush_kill:
             self.pre.append(getattr(self, "last_flush_nonempty", z3.BoolVal(False)))
-            self.pre.append(self.ops[-1] != 2)
+            self.pre.append(z3.And(self.ops[-1] != 2, self.ops[-1] != 3))
             self.judge(z3.BoolVal(True), self.N, "kill between publication and WAL pruning")
         else:
             self.judge(z3.BoolVal(True), self.N, "kill")
 
 
-def bmc(facts, steps, capmax, nondet_rotation, timeout_ms=120000, midflush_kill=False):
-    m = Model(facts, steps, capmax, nondet_rotation, midflush_kill)
+def bmc(facts, steps, capmax, nondet_rotation, timeout_ms=120000, midflush_kill=False, lag=False):
+    m = Model(facts, steps, capmax, nondet_rotation, midflush_kill, lag)
     m.run()
     s = z3.Solver()
     s.set("timeout", timeout_ms)
@@ -393,9 +471,9 @@ def bmc(facts, steps, capmax, nondet_rotation, timeout_ms=120000, midflush_kill=
     return r, {"ops": ops, "cap": cap, "bad": kinds, "nondet_rotation": nd}
 
 
-def shortest(facts, maxsteps, capmax, nondet, midflush_kill=False):
+def shortest(facts, maxsteps, capmax, nondet, midflush_kill=False, lag=False):
     for n in range(1, maxsteps + 1):
-        r, cex = bmc(facts, n, capmax, nondet, midflush_kill=midflush_kill)
+        r, cex = bmc(facts, n, capmax, nondet, midflush_kill=midflush_kill, lag=lag)
         if r == z3.sat:
             return r, cex, n
         if r != z3.unsat:
@@ -427,13 +505,17 @@ def replay_history(ctx, cex, midflush=False):
                 cur.append("!sleep 150")
             elif op == 1:
                 cur += ["FLUSH", "!wait", "!sleep 400"]
-            else:
+            elif op == 2:
                 cur += ["!sleep 300", "!shutdown"]
+                lives.append(cur)
+                cur = []
+            else:
+                cur += ["!wait", "!sleep 500", "!kill"]
                 lives.append(cur)
                 cur = []
         cur += ["!wait", "!sleep 500", "!kill"]
         lives.append(cur)
-        lives.append(["QUERY ev"])
+        lives.append(["QUERY ev", "QUERY ev COUNT"])
         rows = []
         counts = []
         wal, saved, stop = os.path.join(root, "wal", "shard-0"), {}, []
@@ -451,8 +533,6 @@ def replay_history(ctx, cex, midflush=False):
                 except OSError:
                     pass
                 _time.sleep(0.0005)
-        if midflush:
-            lives[-1] = ["QUERY ev", "QUERY ev COUNT"]
         for i, l in enumerate(lives):
             th = None
             if midflush and i == len(lives) - 2:
@@ -482,16 +562,18 @@ def replay_history(ctx, cex, midflush=False):
                             rows += [r[-1] for r in j["rows"]]
         rows.sort()
         if midflush:
-            text = (f"capacity {cex['cap']}; history: " + " ".join({0: "STORE", 1: "FLUSH", 2: "RESTART"}[o] for o in cex["ops"]) +
+            text = (f"capacity {cex['cap']}; history: " + " ".join({0: "STORE", 1: "FLUSH", 2: "RESTART", 3: "KILL+RESTART"}[o] for o in cex["ops"]) +
                     f", process killed after the flush published its segment and before it pruned the WAL (logs it removed put back: "
                     f"{sorted(saved)}); stored n={stored}; after restart QUERY returns n={rows}, QUERY COUNT returns {counts}")
             bad = (counts and counts[0] != len(stored)) or len(rows) != len(stored)
             return bool(bad), text
         lost = [x for x in stored if x not in rows]
         dup = sorted({x for x in rows if rows.count(x) > 1})
-        text = (f"capacity {cex['cap']}; history: " + " ".join({0: "STORE", 1: "FLUSH", 2: "RESTART"}[o] for o in cex["ops"]) +
-                f" KILL; stored n={stored}; after restart QUERY returns n={rows}")
-        return bool(lost or dup), text + (f"; lost {lost}" if lost else "") + (f"; duplicated {dup}" if dup else "")
+        miscount = bool(counts) and counts[0] != len(stored) and not lost
+        text = (f"capacity {cex['cap']}; history: " + " ".join({0: "STORE", 1: "FLUSH", 2: "RESTART", 3: "KILL+RESTART"}[o] for o in cex["ops"]) +
+                f" KILL; stored n={stored}; after restart QUERY returns n={rows}, QUERY COUNT returns {counts}")
+        return bool(lost or dup or miscount), text + (f"; lost {lost}" if lost else "") + (f"; duplicated {dup}" if dup else "") + \
+            (f"; {len(stored)} stored events are counted as {counts[0]}" if miscount else "")
     finally:
         shutil.rmtree(root, ignore_errors=True)
 
@@ -534,7 +616,8 @@ def prune_safety(ctx):
     facts = {"cut": fact_cut(ctx, notes),
              "full": fact_rotate_on(ctx, IN, "insert_and_maybe_flush", notes),
              "manual": fact_rotate_on(ctx, ONF, "shard worker on_flush", notes),
-             "thread": fact_thread(ctx, notes)}
+             "thread": fact_thread(ctx, notes),
+             "reopen": fact_reopen(ctx, notes)}
     small = fact_small(ctx, notes)
     steps = 6 if ctx.k <= 2 else 8
     capmax = 3
@@ -546,7 +629,8 @@ def prune_safety(ctx):
                    "WalHandle::spawn_wal_thread (rotation policy, rotate request)", "InnerWalWriter::rotate_log_file",
                    "WalCleaner::cleanup_up_to", "MemTable::is_full", "InnerWalWriter::find_next_wal_id (modelled)"]
     r.bounds = (f"one shard, histories of at most {steps} steps followed by a kill, memtable capacity 1..{capmax}, every flush "
-                "completes before the next command; WAL thread keeps up with the appends; compaction not modelled")
+                "finishes either at once or at an arbitrary later step in queue order (both decided); the WAL thread keeps up with the appends "
+                "(count-based rotation, and rotation after any append); compaction and failing flushes not modelled")
     out["wal-prune-safe"] = r
     r2 = Result("wal-recover-once", "a kill between the publication of a flushed segment and the pruning of its WAL logs: after restart "
                 "every acknowledged event is still returned / counted exactly once")
@@ -579,6 +663,16 @@ def prune_safety(ctx):
             r.notes.append("safe under the count-based rotation policy only (an arbitrary rotation policy has a counterexample)")
         elif res2 != z3.unsat:
             res = res2
+    if res == z3.unsat:
+        # stronger still: a queued flush finishes at an arbitrary later step (in queue order), or never before the kill
+        for nd in (False, True):
+            res3, cex3, n3 = shortest(facts, steps, capmax, nondet=nd, lag=True)
+            r.queries += n3
+            if res3 != z3.unsat:
+                r.status = "inconclusive"
+                r.notes.append("safe when every flush finishes before the next command, but not decided / not safe when flushes lag behind: "
+                               + (json.dumps(cex3) if cex3 else "solver returned unknown"))
+                break
     ctx.q.queries += r.queries
     out["wal-recover-once"] = recovery_once(ctx, facts, steps, capmax)
     if res == z3.unsat:
